@@ -75,6 +75,17 @@ def run(tier, seed):
     from . import typing_common as tc
     tc.mc_structure(run, "C04", geoms_quick=(1, 2, 3))
     recipes = generic_recipes(rng, q) + kit_recipes(rng, q)
+    # the plasmids of the embedded registries, typed by the class their registry assigns (thorough: all 362, and
+    # also by the signature-free class of the same enzyme, at a second origin)
+    from .. import classes, gen as _gen
+    regn = 0
+    for reg, key, seq, cspec in tc.registry_members(rng, 6 if q else 0):
+        recipes.append({"fn": "typing", "cls": cspec, "seq": seq, "plasmid": key})
+        regn += 1
+        if not q:
+            k = rng.randrange(len(seq))
+            recipes.append({"fn": "typing", "cls": classes.generic_spec_for(classes.build(cspec)), "seq": _gen.rotate(seq, k), "plasmid": key})
+    run.extra["registry_plasmids_typed"] = regn
     traces = [exec_typing(r) for r in recipes]
     acc = 0
     for r, t in zip(recipes, traces):
